@@ -321,7 +321,7 @@ func mainCheck(args []string) int {
 	}
 	violations := 0
 	knownHit := 0
-	var knownLines []string
+	knownLines := []string{}
 	replayDir := filepath.Join(*verif, "replays", *prop)
 	os.MkdirAll(replayDir, 0o755)
 	for _, o := range failed {
